@@ -54,7 +54,7 @@ BAD_STMT = [
     ("too-many-initialisers", "let ta: [2]i32 = [1, 2, 3];"), ("too-many-initialisers", "let tb: [1]i32 = [1, 2];"),
     ("unhandled-result", "fails();"), ("unhandled-result", "let ur: i32 = fails();"),
     ("assign-mismatch", "loc = s;"), ("assign-mismatch", "loc = v64;"), ("assign-mismatch", "pp.X = v64;"), ("assign-mismatch", "dr[0] = s;"), ("assign-mismatch", "loc += v64;"),
-    ("struct-field", "pp.Nope = 1;"), ("struct-field", "let sq: P = { .X = 1 } as P;"), ("struct-field", "let sr: P = { .X = 1, .Y = 2, .W = 3 } as P;"),
+    ("struct-field", "pp.Nope = 1;"), ("struct-field", "let sq: P = { .X = 1 } as P;"), ("struct-field", "let sr: P = { .X = 1, .Y = 2, .W = 3 } as P;"), ("struct-field", "let sd: P = { .X = 1, .X = s, .Y = 2 } as P;"), ("struct-field", "let se: P = { .X = 1, .Y = 2, .X = 3 } as P;"),
     ("undefined-name", "nope = 1;"), ("undefined-name", "nopeFn();"), ("arg-count", "pp.Bump();"), ("arg-type", "pp.Bump(s);"), ("call-non-function", "loc();"),
 ]
 # statements whose ill-typedness depends on the enclosing function's result type: (rule, text, needs)
